@@ -791,47 +791,69 @@ func c16SharedKeys(c *Ctx) {
 	if len(f.Params) == 2 {
 		orig = f.Params[1]
 	}
-	var withOrig, without *ssa.BasicBlock // blocks entered when originalConfig != nil / == nil
-	for _, ifi := range ifsOf(f) {
-		bo, ok := ifi.Cond.(*ssa.BinOp)
-		if !ok || bo.X != orig || !isNilConst(bo.Y) {
-			continue
-		}
-		b := ifi.Block()
-		if bo.Op == token.NEQ {
-			withOrig, without = b.Succs[0], b.Succs[1]
-		} else if bo.Op == token.EQL {
-			withOrig, without = b.Succs[1], b.Succs[0]
-		}
-		// the last such test governs the key set; keep iterating
-	}
-	c.Evals++
-	shared, own := false, false
-	instrsOf(f, func(b *ssa.BasicBlock, in ssa.Instruction) {
-		st, ok := in.(*ssa.Store)
-		if !ok {
-			return
-		}
-		fa, ok := st.Addr.(*ssa.FieldAddr)
-		if !ok || fieldName(fa.X.Type(), fa.Field) != "sessionTicketKeys" || fa.X != ssa.Value(f.Params[0]) {
-			return
-		}
-		if ld, ok := st.Val.(*ssa.UnOp); ok {
-			if fa2, ok := ld.X.(*ssa.FieldAddr); ok && fa2.X == orig && fieldName(fa2.X.Type(), fa2.Field) == "sessionTicketKeys" {
-				if withOrig != nil && (withOrig == b || withOrig.Dominates(b)) {
-					shared = true
-				}
-				return
+	// decided on values: assume originalConfig != nil / == nil and look at the stores that stay reachable
+	ci := newCondIndex(f, map[ssa.Value]string{orig: "originalConfig"})
+	fromOrig := func(v ssa.Value) bool {
+		switch x := v.(type) {
+		case *ssa.UnOp:
+			if fa2, ok := x.X.(*ssa.FieldAddr); ok && fa2.X == orig && fieldName(fa2.X.Type(), fa2.Field) == "sessionTicketKeys" {
+				return true
 			}
+		case *ssa.Call:
+			// an accessor of the original Config that returns the field (under its lock)
+			sc := x.Call.StaticCallee()
+			if sc == nil || len(x.Call.Args) != 1 || x.Call.Args[0] != orig || len(sc.Params) != 1 || sc.Blocks == nil {
+				return false
+			}
+			okAll, n := true, 0
+			for _, b := range sc.Blocks {
+				ret, isRet := b.Instrs[len(b.Instrs)-1].(*ssa.Return)
+				if !isRet || len(ret.Results) != 1 {
+					continue
+				}
+				n++
+				ld, ok := ret.Results[0].(*ssa.UnOp)
+				if !ok {
+					okAll = false
+					continue
+				}
+				fa2, ok := ld.X.(*ssa.FieldAddr)
+				if !ok || fa2.X != ssa.Value(sc.Params[0]) || fieldName(fa2.X.Type(), fa2.Field) != "sessionTicketKeys" {
+					okAll = false
+				}
+			}
+			return okAll && n > 0
 		}
-		if without != nil && (without == b || without.Dominates(b)) {
-			own = true
-		} else {
-			own, shared = false, false // a key set of its own on a path where an original Config exists
-			without = nil
-		}
-	})
-	c.Check(shared && own, rule, fname(f), "a per-client Config shares the listening Config's ticket keys; only a stand-alone Config derives its own", "", "serverInit does not assign originalConfig.sessionTicketKeys on the path where an original Config is given (or derives a private key set there): per-client Configs ignore SetSessionTicketKeys rotations of the listener", f.Pos())
+		return false
+	}
+	type obs struct{ shared, own int }
+	look := func(origNil bool) obs {
+		var o obs
+		ci.withAssumptions([]assumption{{`re:eq\(originalConfig,const:nil:.*\)`, origNil}}, func() {
+			live := reach([]*ssa.BasicBlock{f.Blocks[0]}, deadEdges(f))
+			instrsOf(f, func(b *ssa.BasicBlock, in ssa.Instruction) {
+				st, ok := in.(*ssa.Store)
+				if !ok || !live[b] {
+					return
+				}
+				fa, ok := st.Addr.(*ssa.FieldAddr)
+				if !ok || fieldName(fa.X.Type(), fa.Field) != "sessionTicketKeys" || fa.X != ssa.Value(f.Params[0]) {
+					return
+				}
+				if fromOrig(st.Val) {
+					o.shared++
+				} else {
+					o.own++
+				}
+			})
+		})
+		return o
+	}
+	c.Evals += 2 * len(ci.conds)
+	with, without := look(false), look(true)
+	c.Check(with.shared > 0 && with.own == 0 && without.own > 0, rule, fname(f), "a per-client Config shares the listening Config's ticket keys; only a stand-alone Config derives its own",
+		fmt.Sprintf("with an original Config: %d shared / %d own stores reachable; without: %d own", with.shared, with.own, without.own),
+		"serverInit does not assign originalConfig.sessionTicketKeys on the path where an original Config is given (or derives a private key set there): per-client Configs ignore SetSessionTicketKeys rotations of the listener", f.Pos())
 }
 
 func pnameOfRecv(f *ssa.Function) string {
